@@ -203,6 +203,59 @@ def prune(keep, n=4):
             shutil.rmtree(p, ignore_errors=True)
 
 
+WITNESS_TARGET = os.path.join(CACHE, "witness-target")
+
+
+def ensure_witness(facts_dir):
+    """E5 + E6: run the compile-fail witnesses (rustdoc, nothing is executed: `compile_fail` / `no_run`)
+    and dump MIR facts of the probe crate.  Cached per tree in <facts_dir>/witness/."""
+    out = os.path.join(facts_dir, "witness")
+    done = os.path.join(out, "result.json")
+    lockf = open(os.path.join(FACTS, ".wlock"), "w")
+    fcntl.flock(lockf, fcntl.LOCK_EX)
+    try:
+        if os.path.exists(done):
+            with open(done) as fh:
+                return json.load(fh)
+        if os.path.isdir(out):
+            shutil.rmtree(out)
+        os.makedirs(out)
+        wdir = os.path.join(VERIF, "witness")
+        shutil.copy(os.path.join(REPO, "Cargo.lock"), os.path.join(wdir, "Cargo.lock"))
+        drv = tool_path("mirfacts")
+        fp = os.path.join(WITNESS_TARGET, "debug", ".fingerprint")
+        if os.path.isdir(fp):
+            for d in os.listdir(fp):
+                if d.rsplit("-", 1)[0] in ("witness", "pico", "pico_macros", "intern", "u64_newtypes"):
+                    shutil.rmtree(os.path.join(fp, d), ignore_errors=True)
+        env = base_env()
+        env["LD_LIBRARY_PATH"] = nightly_sysroot() + "/lib"
+        env["RUSTFLAGS"] = "-Zmir-opt-level=0 -Awarnings"
+        env["RUSTC_WORKSPACE_WRAPPER"] = drv
+        env["MIRFACTS_OUT"] = out
+        env["MIRFACTS_ONLY"] = "witness"
+        env["CARGO_TARGET_DIR"] = WITNESS_TARGET
+        log = os.path.join(out, "witness.log")
+        p = run(["cargo", "+nightly", "test", "--doc", "--offline", "--", "--test-threads", "8"], cwd=wdir, env=env,
+                log=log)
+        tests = {}
+        import re as _re
+        for line in p.stdout.splitlines():
+            m = _re.match(r"test src/lib.rs - (\w+) \(line \d+\) - (compile fail|compile) \.\.\. (\w+)", line)
+            if m:
+                tests.setdefault(m.group(1), {})["witness" if m.group(2) == "compile fail" else "twin"] = m.group(3)
+        built = os.path.exists(os.path.join(out, "witness.lib.jsonl"))
+        res = {"tests": tests, "exit": p.returncode, "probe_facts": built, "tail": p.stdout[-1500:]}
+        if not tests and p.returncode != 0:
+            raise CheckError("witness crate did not build:\n" + p.stdout[-3000:])
+        with open(done, "w") as fh:
+            json.dump(res, fh, indent=1)
+        return res
+    finally:
+        fcntl.flock(lockf, fcntl.LOCK_UN)
+        lockf.close()
+
+
 if __name__ == "__main__":
     sys.path.insert(0, os.path.dirname(os.path.abspath(__file__)))
     if len(sys.argv) > 1 and sys.argv[1] == "--hash":
